@@ -119,7 +119,7 @@ def run(ctx):
     import random
     rnd = random.Random(ctx.seed)
     # a bounded, shape-balanced selection (graphs with self-imports are the vast majority of all import functions)
-    cap = 260 if quick else 3000
+    cap = 260 if quick else 1200
     if len(recs) > cap:
         recs.sort(key=lambda x: canon(x["imp"]))
         rnd.shuffle(recs)
